@@ -258,11 +258,14 @@ VIEWS_RULE = ("TLC explores sequences of convenience setters and raw option call
 # ------------------------------------------------------------------------------ C08-C12, C20 block handler
 def _block_traces(ctx, drivers, props, bins=None):
     bins = bins or (ctx.build("dev"), ctx.build("release"))
+    jobs = []
     for drv in drivers:
         for b in bins:
             tr, _ = ctx.record(b, drv, name="%s-%s" % (drv, os.path.basename(b)))
-            ctx.validate("Trace_BlockHandler", tr, props, label="%s-%s" % (drv, os.path.basename(b)), timeout=2400)
-            rm(tr)
+            jobs.append(("Trace_BlockHandler", tr, props, "%s-%s" % (drv, os.path.basename(b))))
+    ctx.validate_many(jobs)
+    for j in jobs:
+        rm(j[1])
 
 
 def _never(module, env):
@@ -284,6 +287,7 @@ def _scripts(ctx, module, env, props, label, workers=8, bins=None, maxn=None, ex
     ctx.model_check(module, env=e, workers=workers, timeout=1800, allow_never=_never(module, env), coverage=False, expect_states=expect)
     if os.path.getsize(out) == 0:
         raise vlib.ToolError("model %s emitted no script (vacuity guard)" % module)
+    jobs = []
     for b in bins:
         tr = ctx.path("script-trace-%s-%s.ndjson" % (label, os.path.basename(b)))
         args = ["rec", "script", "--in", out, "--out", tr]
@@ -292,8 +296,10 @@ def _scripts(ctx, module, env, props, label, workers=8, bins=None, maxn=None, ex
         info = ctx.harness(b, *args)
         ctx.events += int(info.get("events", 0))
         ctx.vectors += int(info.get("scripts", 0))
-        ctx.validate("Trace_BlockHandler", tr, props, label="scripts-%s-%s" % (label, os.path.basename(b)), timeout=2400)
-        rm(tr)
+        jobs.append(("Trace_BlockHandler", tr, props, "scripts-%s-%s" % (label, os.path.basename(b))))
+    ctx.validate_many(jobs)
+    for j in jobs:
+        rm(j[1])
     rm(out)
 
 
